@@ -14,7 +14,7 @@ import re
 import sys
 
 sys.path.insert(0, os.path.dirname(os.path.abspath(__file__)))
-from _util import read  # noqa: E402
+from _util import fn_body, read  # noqa: E402
 
 OUTPUTS = ["LexTables.lean"]
 
@@ -52,15 +52,22 @@ def generate(repo):
         raise ValueError(f"default delimiter fields {sorted(fields)}")
     dflt = {k: list(fields[k].encode("utf8")) for k in want}
 
-    # ---- `validate`: six length tests against 2 and the three start-conflict tests (shape check only;
-    # the algorithm is modelled by hand in Model/Delims.lean and tied by the correspondence run)
-    lens = re.findall(r"self\.(\w+)\.len\(\)\s*!=\s*(\d+)", dl)
-    if sorted(f for f, _ in lens) != sorted(want) or any(n != "2" for _, n in lens):
-        raise ValueError(f"validate: unexpected length tests {lens}")
-    confl = re.findall(r"self\.(\w+)\s*==\s*self\.(\w+)", dl)
-    if sorted(tuple(sorted(c)) for c in confl) != sorted(
-            [("block_start", "variable_start"), ("block_start", "comment_start"), ("comment_start", "variable_start")]):
-        raise ValueError(f"validate: unexpected conflict tests {confl}")
+    # ---- `validate`: nothing is generated from it (the algorithm is modelled by hand in
+    # Model/Delims.lean and tied by the correspondence run, which feeds delimiter sets of every
+    # length and every conflict to both sides); only a loose sanity check remains, written so that a
+    # refactoring of the function (a closure or loop for the six length tests, reordered or merged
+    # conflict tests) does not disturb it: the function exists, mentions all six fields, compares a
+    # length with 2 and compares the three start delimiters pairwise.
+    vb = fn_body(dl, r"fn\s+validate\s*\(\s*&self\s*\)[^{]*\{")
+    if not all(re.search(rf"\b{f}\b", vb) for f in want):
+        raise ValueError("validate: a delimiter field is no longer mentioned")
+    if not re.search(r"\.len\(\)\s*(?:!=|==|<|>|<=|>=)\s*2\b|\b2\s*(?:!=|==)\s*\w+(?:\.\w+)*\.len\(\)", vb):
+        raise ValueError("validate: no comparison of a length with 2")
+    starts = {"block_start", "variable_start", "comment_start"}
+    confl = {tuple(sorted((a, b))) for a, b in re.findall(r"self\.(\w+)\s*==\s*self\.(\w+)", vb)
+             if a in starts and b in starts and a != b}
+    if len(confl) != 3:
+        raise ValueError(f"validate: the three start delimiters are not compared pairwise: {sorted(confl)}")
 
     # ---- operator tables
     ops2 = re.findall(r"Some\(b\"((?:[^\"\\]|\\.){2})\"\)\s*=>\s*Some\(Token::(\w+)\)", lx)
